@@ -8,7 +8,7 @@ Hand-written model of the option LOADER of insights/client/config.py (C16); the 
   config.py:544-586  _load_env           -> `envDict`
   config.py:588-625  _load_command_line  -> `cliDict`  (argparse itself is platform: the model gets
                                             the switches as (destination, optional argument) pairs)
-  config.py:627-665  _load_config_file   -> `fileDict` (RawConfigParser is platform: the model gets the
+  config.py:627-666  _load_config_file   -> `fileDict` (RawConfigParser is platform: the model gets the
                                             items of the section, keys already lower-cased)
   config.py:667-678  load_all            -> `preImply` (the four updates) then `finish` (imply, validate)
   config.py:881-919  _determine_filename_and_extension -> `detMeth` / `detRaises` (instantiates `env.meth`)
@@ -211,9 +211,6 @@ def fileCoerce (k : Str) (v : Str) : Option PyVal :=
   else if isDefaultBool k then (getBoolean v).map .bool
   else some (.str v)
 
-/-- does the key need `parsedconfig.get*(constants.app_name, key)`? -/
-def fileTyped (k : Str) : Bool := k = kRetries || k = kCmdTimeout || k = kHttpTimeout || isDefaultBool k
-
 def coerceAll : List (Str × Str) → Option Dict
   | [] => some []
   | (k, v) :: r => match fileCoerce k v, coerceAll r with
@@ -229,24 +226,21 @@ inductive FileSrc where
   /-- only the legacy section [redhat-access-insights] exists -/
   | legacy (items : List (Str × Str))
 
-inductive FileRes where
-  | dict (d : Dict)
-  /-- configparser.NoSectionError escapes: a typed option in the legacy section is re-read from
-  the section `insights-client`, which does not exist (config.py:649-654) -/
-  | noSection
-deriving DecidableEq
+/-- the items of the section that was found (`section` in the code: [insights-client], else the legacy
+[redhat-access-insights]); typed options are re-read with getint/getfloat/getboolean FROM THAT SECTION
+(config.py:642-660), so both sections are coerced alike -/
+def FileSrc.items? : FileSrc → Option (List (Str × Str))
+  | .absent => none
+  | .section items => some items
+  | .legacy items => some items
 
 /-- `_load_config_file` up to the final `_update_dict`; a ValueError drops the whole file -/
-def fileDict : FileSrc → FileRes
-  | .absent => .dict []
-  | .section items => match coerceAll items with
-    | some d => .dict (dofPairs d)
-    | none => .dict []
-  | .legacy items =>
-    if items.any (fun kv => fileTyped kv.1) then
-      -- keys are visited in order; the first typed key raises before any ValueError can
-      .noSection
-    else .dict (dofPairs (items.map (fun kv => (kv.1, .str kv.2))))
+def fileDict (f : FileSrc) : Dict :=
+  match f.items? with
+  | none => []
+  | some items => match coerceAll items with
+    | some d => dofPairs d
+    | none => []
 
 /-- one command-line switch: `none` = not a switch of the table, `some none` = argparse error -/
 def cliValue (k : Str) (arg : Option Str) : Option (Option PyVal) :=
@@ -380,8 +374,6 @@ inductive Outcome where
   | valueError (msg : Str)
   /-- SystemExit from argparse -/
   | exit
-  /-- configparser.NoSectionError -/
-  | noSection
   /-- malformed request (never a behaviour of the code) -/
   | bad
 
@@ -423,15 +415,13 @@ def afterConfOnly (s cli : Dict) : Dict :=
 /-- the four loading steps of `load_all` on the constructed store: the store before implication -/
 def preImply (inp : Input) (s0 cli : Dict) : Outcome :=
   let s1 := afterConfOnly s0 cli
-  match fileDict (fileAt inp.files (dget s1 kConf)) with
-  | .noSection => .noSection
-  | .dict fd =>
-    let s2 := updateDict s1 fd
-    match envDict inp.envVars with
-    | none => .valueError "ERROR: Invalid value specified for ".toList
-    | some ed =>
-      let s3 := updateDict s2 ed
-      .ok (updateDict s3 cli)
+  let fd := fileDict (fileAt inp.files (dget s1 kConf))
+  let s2 := updateDict s1 fd
+  match envDict inp.envVars with
+  | none => .valueError "ERROR: Invalid value specified for ".toList
+  | some ed =>
+    let s3 := updateDict s2 ed
+    .ok (updateDict s3 cli)
 
 /-- `InsightsConfig(**kwargs).load_all()` -/
 def loadAll (inp : Input) : Outcome :=
